@@ -316,7 +316,7 @@ package rapid
 // runtime: SIGTERM first, SIGKILL only from the deadline branch, both addressed to the process that was looked up
 //@ func (*shutdownContext).shutdownRuntime
 //@   requires execCtx != nil && s != nil
-//@   ensures [C09: the-kill-deadline-counts-from-the-kill] delta(KillAny) == 1 ==> killDeadlineIsFresh() && first(Terminate) < last(TimeNowRead)
+//@   ensures [the-kill-deadline-counts-from-the-kill] delta(KillAny) == 1 ==> killDeadlineIsFresh() && first(Terminate) < last(TimeNowRead)
 //@   ensures [term-before-kill] delta(ExitedLookup) == 1 && delta(Terminate) == delta(ExitedLookupFound) && delta(KillAny) <= delta(Terminate) && (delta(KillAny) == 1 ==> first(Terminate) < first(KillAny))
 //@   ensures [same-process] delta(Terminate) == 1 ==> lastarg(Terminate, 2).Name == lastarg(ExitedLookup, 1) && lastarg(Terminate, 2).Domain == RuntimeDomain && (delta(KillAny) == 1 ==> lastarg(KillAny, 2).Name == lastarg(ExitedLookup, 1) && lastarg(KillAny, 2).Domain == RuntimeDomain)
 //@   ensures [nothing-else] delta(ReleaseExt) == 0 && delta(RendererSet) == 0 && delta(ClearExited) == 0
@@ -324,7 +324,7 @@ package rapid
 // the graceful path of one extension: one SHUTDOWN event (release from next), SIGKILL only from the deadline branch
 //@ func (*shutdownContext).shutdownAgents$1
 //@   requires execCtx != nil && agent != nil
-//@   ensures [C09: the-kill-deadline-counts-from-the-kill] delta(KillAny) == 1 ==> killDeadlineIsFresh() && first(ReleaseExt) < last(TimeNowRead)
+//@   ensures [the-kill-deadline-counts-from-the-kill] delta(KillAny) == 1 ==> killDeadlineIsFresh() && first(ReleaseExt) < last(TimeNowRead)
 //@   ensures [one-event-then-maybe-kill] delta(ReleaseExt) == 1 && lastarg(ReleaseExt, 0) == agent && delta(KillAny) <= 1 && (delta(KillAny) == 1 ==> first(ReleaseExt) < first(KillAny) && lastarg(KillAny, 2).Name == name && lastarg(KillAny, 2).Domain == RuntimeDomain) && delta(Terminate) == 0
 //@   ensures [waits-on-a-context-of-its-own] delta(OwnWaitContext) == 1 && first(ReleaseExt) < first(OwnWaitContext)
 //@   ensures [reports-its-end-once-and-last] delta(WgDone) == 1 && delta(WgAdd) == 0 && delta(WgWait) == 0 && last(ReleaseExt) < first(WgDone) && (delta(KillAny) == 1 ==> last(KillAny) < first(WgDone))
@@ -332,7 +332,7 @@ package rapid
 // an extension not subscribed to SHUTDOWN: killed, no event
 //@ func (*shutdownContext).shutdownAgents$2
 //@   requires execCtx != nil
-//@   ensures [C09: the-kill-deadline-counts-from-the-kill] killDeadlineIsFresh()
+//@   ensures [the-kill-deadline-counts-from-the-kill] killDeadlineIsFresh()
 //@   ensures [kill-without-event] delta(KillAny) == 1 && lastarg(KillAny, 2).Name == name && lastarg(KillAny, 2).Domain == RuntimeDomain && delta(ReleaseExt) == 0 && delta(Terminate) == 0
 //@   ensures [reports-its-end-once-and-last] delta(WgDone) == 1 && delta(WgAdd) == 0 && delta(WgWait) == 0 && last(KillAny) < first(WgDone)
 
@@ -347,7 +347,7 @@ package rapid
 
 //@ func (*shutdownContext).shutdown
 //@   requires execCtx != nil && s != nil
-//@   ensures [C09: the-kill-deadline-counts-from-the-kill] lastret(AgentCount) == 0 && delta(KillAny) == 1 ==> killDeadlineIsFresh()
+//@   ensures [the-kill-deadline-counts-from-the-kill] lastret(AgentCount) == 0 && delta(KillAny) == 1 ==> killDeadlineIsFresh()
 //@   ensures [flag-brackets-the-shutdown] delta(ShuttingDownSet) == 1 && delta(ShuttingDownCleared) == 1 && first(ShuttingDownSet) < first(FirstFatalForgotten) && delta(FirstFatalForgotten) == 1 && first(FirstFatalForgotten) < first(AgentCount) && last(ClearExited) < first(ShuttingDownCleared)
 //@   ensures [no-extensions-kill-at-once] delta(AgentCount) == 1 && (lastret(AgentCount) == 0 ==> delta(Terminate) == 0 && delta(ShutdownRuntimeStep) == 0 && delta(ShutdownAgentsStep) == 0 && delta(ExitedLookup) == 1 && delta(KillAny) == delta(ExitedLookupFound) && (delta(KillAny) == 1 ==> lastarg(KillAny, 2).Name == lastarg(ExitedLookup, 1) && lastarg(KillAny, 2).Domain == RuntimeDomain))
 //@   ensures [graceful-otherwise] lastret(AgentCount) != 0 ==> delta(ShutdownRuntimeStep) == 1 && delta(ShutdownAgentsStep) == 1 && first(ShutdownRuntimeStep) < first(ShutdownAgentsStep) && lastarg(ShutdownAgentsStep, reason) == reason
